@@ -188,7 +188,7 @@ def _has_single_item_group(gram: str) -> bool:
     """some parenthesised group has exactly one alternative with exactly one item (named or forced) and an action"""
     stack = []
     for i, ch in enumerate(gram):
-        if ch == "(" and (i == 0 or gram[i - 1] in " =&!.") and not gram.startswith("('", i):
+        if ch == "(" and (i == 0 or gram[i - 1] in " =&!.[(") and not gram.startswith("('", i):
             stack.append(i)
         elif ch == ")" and stack and not (i >= 2 and gram[i - 1] == ","):
             j = stack.pop()
